@@ -104,5 +104,9 @@ mod tests;
 #[cfg(target_arch = "wasm32")]
 mod wasm;
 
+#[cfg(fast_qr_verif)]
+#[doc(hidden)]
+pub mod verif_hooks;
+
 #[cfg(target_arch = "wasm32")]
 pub use wasm::*;
